@@ -104,6 +104,10 @@ def observe_and_judge(rep, cases, label, corrupt=None):
         args += ["--corrupt", corrupt]
     dlv(args, timeout=3600)
     status = read_ndjson(sp)
+    cli_runs = sum(int(s["status"].split(":")[1]) for s in status if s.get("path") == "cli-summary")
+    status = [s for s in status if s.get("path") != "cli-summary"]
+    if not corrupt and cli_runs < max(1, len(status) // 40):
+        raise vlib.ToolError("the real `darklua convert` binary ran for %d of %d documents only (DLV_DARKLUA_BIN not built?)" % (cli_runs, len(status)))
     lines = open(tp).read().splitlines()
     verdicts = {}
     states = gen = 0
@@ -154,7 +158,7 @@ def observe_and_judge(rep, cases, label, corrupt=None):
         counts[key] = counts.get(key, 0) + 1
         fk = "%s/%s" % (s["fmt"], s["path"])
         counts[fk] = counts.get(fk, 0) + 1
-    return {"status": status, "counts": counts, "programs": len(status), "executed": len(lines), "states": states,
+    return {"status": status, "counts": counts, "programs": len(status), "executed": len(lines), "states": states, "cli_runs": cli_runs,
             "transitions": gen, "disagreements": disagreements, "negzero": negzero}
 
 
@@ -208,7 +212,7 @@ def run(tier):
         raise vlib.ToolError("only %d conversions of %d documents were observed (%s)" % (res["programs"], len(allc), c))
     ok_status = [s for s in res["status"] if s["status"] == "ok"]
     rep.coverage.update({
-        "programs": res["programs"], "disagreements_checked": res["disagreements"],
+        "programs": res["programs"], "disagreements_checked": res["disagreements"], "documents_converted_by_the_real_cli_binary": res["cli_runs"],
         "samples": [{"doc": s["doc"][:300], "fmt": s["fmt"], "path": s["path"], "out": s["out"][:300]} for s in (ok_status[0], ok_status[len(ok_status) // 2], ok_status[-1])],
         "distinct_programs_executed": res["executed"], "data_values_enumerated": len(cases), "random_documents": nrand,
         "key_rule_universe": g.distinct - len(cases), "key_rule_incompleteness": len(incomplete),
